@@ -1,5 +1,5 @@
-//! K-slices of `DelaunayTriangulation::insert` / `insert_with_statistics`: the decision whether
-//! to snapshot the state before an insertion (verbatim statements, see the overlay log).
+//! Prefix K-slices of `DelaunayTriangulation::insert` / `insert_with_statistics`: everything the
+//! function does up to and including `let snapshot = ..;` (see the overlay log).
 use super::*;
 use core::sync::atomic::{AtomicUsize, Ordering as AOrd};
 static NCELLS: AtomicUsize = AtomicUsize::new(0);
@@ -18,12 +18,18 @@ fn any_check_policy() -> DelaunayCheckPolicy {
     if kani::any() { DelaunayCheckPolicy::EndOnly } else { let n: usize = kani::any(); kani::assume(n >= 1 && n <= 16); DelaunayCheckPolicy::EveryN(core::num::NonZeroUsize::new(n).unwrap()) }
 }
 
-macro_rules! snapshot_decision {
+// ---- prefix slice: everything `insert` does up to and including `let snapshot = ...;` -----------
+// (robust against refactorings of HOW the decision is computed: helper functions included)
+fn stub_seed_index<K, U, V, const D: usize>(_d: &mut DelaunayTriangulation<K, U, V, D>)
+where K: Kernel<D>, U: DataType, V: DataType {}
+
+macro_rules! snapshot_taken {
     ($name:ident, $slice:ident) => {
         #[kani::proof]
         #[kani::unwind(4)]
         #[kani::stub(Tds::number_of_cells, stub_ncells)]
         #[kani::stub(Tds::number_of_vertices, stub_nverts)]
+        #[kani::stub(DelaunayTriangulation::ensure_spatial_index_seeded, stub_seed_index)]
         fn $name() {
             const D: usize = 2;
             let mut dt = DelaunayTriangulation::<FastKernel<f64>, (), (), D>::empty();
@@ -35,29 +41,20 @@ macro_rules! snapshot_decision {
             dt.insertion_state.delaunay_check_policy = cp;
             dt.insertion_state.delaunay_repair_insertion_count = count;
             let (nc, nv): (usize, usize) = (kani::any(), kani::any());
-            kani::assume(nv < usize::MAX); // vertex count of a real triangulation
+            kani::assume(nv < usize::MAX);
             NCELLS.store(nc, AOrd::Relaxed);
             NVERTS.store(nv, AOrd::Relaxed);
-            let snapshot_needed = dt.$slice();
-            // what can run - and fail - after THIS insertion: the counter is incremented first,
-            // then repair is decided by should_repair(count + 1) (and never under policy Never),
-            // then the global check by should_check(count + 1); both only once cells exist.
+            let snapshot_taken = dt.$slice();
             let next = count + 1;
             let cells_after = nc > 0 || nv + 1 > D;
-            let repair_can_run = cells_after && rp.should_repair(next);
-            let check_can_run = cells_after && cp.should_check(next);
-            if repair_can_run || check_can_run {
-                assert!(snapshot_needed, "OBL snapshot-when-poststep: whenever a post-insertion step (flip repair or scheduled Delaunay check) can run for this insertion, a rollback snapshot is taken first");
+            if cells_after && (rp.should_repair(next) || cp.should_check(next)) {
+                assert!(snapshot_taken, "OBL snapshot-exists-when-poststep: before the insertion starts a rollback snapshot EXISTS whenever flip repair or the scheduled Delaunay check can run (and fail) for this insertion");
             }
-            if !cells_after {
-                assert!(!snapshot_needed, "OBL no-snapshot-in-bootstrap: no snapshot while the insertion cannot create cells (nothing can fail afterwards)");
-            }
-            kani::cover!(snapshot_needed && matches!(rp, DelaunayRepairPolicy::Never), "COV snapshot only for the scheduled check");
-            kani::cover!(!snapshot_needed && cells_after, "COV no post-step due");
+            kani::cover!(snapshot_taken && matches!(rp, DelaunayRepairPolicy::Never), "COV snapshot only for the scheduled check");
+            kani::cover!(!snapshot_taken, "COV no snapshot");
             core::mem::forget(dt);
         }
     };
 }
-snapshot_decision!(insert_snapshot_decision, verif_slice_insert_snapshot_needed);
-snapshot_decision!(insert_stats_snapshot_decision, verif_slice_insert_stats_snapshot_needed);
-
+snapshot_taken!(insert_snapshot_taken, verif_slice_insert_snapshot_taken);
+snapshot_taken!(insert_stats_snapshot_taken, verif_slice_insert_stats_snapshot_taken);
